@@ -330,6 +330,7 @@ func c20Replies(c *core.Collector, x *Ctx) {
 			defer conn.Close()
 			rr := core.NewRand(c.Seed, "c20rr", uint64(ji))
 			pserial := 0
+			prevFrameSerial := -1
 			const window = 64
 			type sent struct {
 				frame []byte
@@ -371,6 +372,14 @@ func c20Replies(c *core.Collector, x *Ctx) {
 				f := sim.CreateDefaultCommandData(cmd)
 				if f == nil {
 					continue
+				}
+				// serial continuity must also hold while ExpectedReply calls are interleaved with frame generation
+				if rf, ok := ref.Validate(f); ok {
+					if prevFrameSerial >= 0 && int(rf.Serial) != (prevFrameSerial+1)%65536 {
+						c.Violate("frame|serial is not the previous one plus 1 when ExpectedReply is used in between", fmt.Sprintf("v%d phone %s: previous %d, now %d", j.ver, j.phone, prevFrameSerial, rf.Serial), map[string]any{"version": int(j.ver), "phone": j.phone})
+						return
+					}
+					prevFrameSerial = int(rf.Serial)
 				}
 				if conn.Write(f) != nil {
 					break
